@@ -156,6 +156,85 @@ func (p *pkgInfo) caseStrings(fn string) []string {
 
 func boolV(v bool) string { return coqfmt.Bool(v) }
 
+// mapLockDiscipline: every method of subscriptionMap that touches s.map_ holds the embedded
+// RWMutex -- the write lock (s.Lock) when it assigns to or deletes from the map, at least the
+// read lock otherwise.  Rt/Ws.v treats each of these methods as ONE atomic step; that is sound
+// only under this discipline.
+func (p *pkgInfo) mapLockDiscipline() (ok bool, methods int) {
+	ok = true
+	for _, f := range p.files {
+		for _, d := range f.Decls {
+			fd, isFn := d.(*ast.FuncDecl)
+			if !isFn || fd.Recv == nil || len(fd.Recv.List) != 1 || fd.Body == nil {
+				continue
+			}
+			star, isStar := fd.Recv.List[0].Type.(*ast.StarExpr)
+			if !isStar {
+				continue
+			}
+			if id, isID := star.X.(*ast.Ident); !isID || id.Name != "subscriptionMap" {
+				continue
+			}
+			recv := ""
+			if len(fd.Recv.List[0].Names) == 1 {
+				recv = fd.Recv.List[0].Names[0].Name
+			}
+			isMap := func(e ast.Expr) bool {
+				se, ok := e.(*ast.SelectorExpr)
+				if !ok || se.Sel.Name != "map_" {
+					return false
+				}
+				id, ok := se.X.(*ast.Ident)
+				return ok && id.Name == recv
+			}
+			touches, writes, lock, rlock := false, false, false, false
+			ast.Inspect(fd.Body, func(n ast.Node) bool {
+				switch x := n.(type) {
+				case *ast.SelectorExpr:
+					if isMap(x) {
+						touches = true
+					}
+				case *ast.AssignStmt:
+					for _, l := range x.Lhs {
+						if ie, ok := l.(*ast.IndexExpr); ok && isMap(ie.X) {
+							writes = true
+						}
+						if isMap(l) {
+							writes = true
+						}
+					}
+				case *ast.CallExpr:
+					if id, ok := x.Fun.(*ast.Ident); ok && id.Name == "delete" && len(x.Args) > 0 && isMap(x.Args[0]) {
+						writes = true
+					}
+					if se, ok := x.Fun.(*ast.SelectorExpr); ok {
+						if id, ok := se.X.(*ast.Ident); ok && id.Name == recv {
+							switch se.Sel.Name {
+							case "Lock":
+								lock = true
+							case "RLock":
+								rlock = true
+							}
+						}
+					}
+				}
+				return true
+			})
+			if !touches {
+				continue
+			}
+			methods++
+			if writes && !lock {
+				ok = false
+			}
+			if !writes && !lock && !rlock {
+				ok = false
+			}
+		}
+	}
+	return ok, methods
+}
+
 func main() {
 	repo := flag.String("repo", "/repo", "repository root")
 	out := flag.String("out", "", "output .v file")
@@ -258,6 +337,10 @@ func main() {
 	}
 	w("Definition tmpl_operation_getter_failure_returns_nil_data : bool := %s.\n", boolV(iGetter >= 0 && iRet > iGetter && (iData < 0 || iRet < iData)))
 	w("Definition tmpl_operation_returns_err_unchanged : bool := %s.\n", boolV(strings.Contains(op, "err_ = client_.MakeRequest(") && strings.Contains(op, "err_\n}")))
+
+	disc, nm := gql.mapLockDiscipline()
+	w("\n(* graphql/subscription.go: the %d methods of subscriptionMap that touch the map hold its lock\n   (the write lock when they write) *)\n", nm)
+	w("Definition ws_map_methods_hold_the_lock : bool := %s.\n", boolV(disc && nm >= 5))
 
 	if *out == "" {
 		fmt.Print(sb.String())
